@@ -141,7 +141,7 @@ var c10Syntaxes = []string{"rle", ".50", ".51", ".57", ".70", ".80", ".81", ".90
 
 func (c10) Build(tier string, seed uint64) []any {
 	var cs []any
-	per, nEnc, nDec := 20, 60, 80
+	per, nEnc, nDec := 60, 240, 320
 	if tier == "thorough" {
 		per, nEnc, nDec = 1500, 4000, 10000
 	}
